@@ -87,6 +87,21 @@ def solver_part(ctx):
     progs = H.programs(rng, ctx.n(10, 40), goals_per=(3, 1, 2))
     for p, goals in pg.corpus():        # F1, F13/F14, F16, F7 witnesses of the proggen fragment
         progs.append((p, pg.to_text(p), goals, [pg.goal_text(g) for g in goals]))
+    # negation under forall (the negated goal has a placeholder, its table may flounder): both solvers
+    A, v = pg.adt, pg.var
+    neg = lambda tr, k=1: ("forall", (k,), ("not", ("atom", (tr, (v(k),)))))
+    negif = lambda a, b, k=1: ("forall", (k,), ("if", [((), (a, (v(k),)), ())], ("not", ("atom", (b, (v(k),))))))
+    for p, goals in [
+        (pg.Prog([pg.Adt("A"), pg.Adt("B", 0, "struct", [[A("A")]])], [pg.Trait("Send", 0, ("auto",)), pg.Trait("Q")], [], "neg-forall-auto"),
+         [neg("Send"), negif("Q", "Send"), negif("Send", "Q")]),
+        (pg.Prog([pg.Adt("A")], [pg.Trait("Tr"), pg.Trait("Q")],
+                 [pg.Impl(1, ("Tr", (v(0),))), pg.Impl(1, ("Q", (v(0),)), [("Tr", (v(0),))])], "neg-forall-blanket"),
+         [neg("Tr"), neg("Q"), negif("Tr", "Q"), negif("Q", "Tr")]),
+        (pg.Prog([pg.Adt("A"), pg.Adt("W", 1)], [pg.Trait("Tr"), pg.Trait("Q")],
+                 [pg.Impl(0, ("Tr", (A("A"),))), pg.Impl(1, ("Tr", (A("W", v(0)),)), [("Q", (v(0),))])], "neg-forall-plain"),
+         [neg("Tr"), negif("Q", "Tr"), ("forall", (1,), ("not", ("atom", ("Tr", (A("W", v(1)),)))))]),
+    ]:
+        progs.append((p, pg.to_text(p), goals, [pg.goal_text(g) for g in goals]))
     # the growing / polymorphic-recursion shapes explicitly
     for sh in (pg.shape_growing, pg.shape_poly_rec, pg.shape_nested_chain):
         for _ in range(ctx.n(1, 4)):
